@@ -215,6 +215,19 @@ func BackSlice(v ssa.Value, o SliceOpts) map[ssa.Value]bool {
 					}
 				}
 			}
+		case *ssa.MakeSlice:
+			// the contents of a slice made here: everything stored into its elements
+			visit(t.Len)
+			visit(t.Cap)
+			if o.ThroughMemory && x.Parent() != nil {
+				for _, b := range x.Parent().Blocks {
+					for _, in := range b.Instrs {
+						if st, ok := in.(*ssa.Store); ok && Root(st.Addr) == ssa.Value(t) {
+							visit(st.Val)
+						}
+					}
+				}
+			}
 		case *ssa.UnOp:
 			visit(t.X)
 			if o.ThroughMemory && t.Op == token.MUL {
@@ -244,6 +257,11 @@ func BackSlice(v ssa.Value, o SliceOpts) map[ssa.Value]bool {
 // DependsOn reports whether v's backward slice contains w.
 func DependsOn(v, w ssa.Value, o SliceOpts) bool { return BackSlice(v, o)[w] }
 
+// CanonicalLocal, when set, names a local variable by what it holds rather
+// than by what the source calls it (the rules refer to the match-data record
+// a function looks up as "fd", whatever the local is called).
+var CanonicalLocal func(*ssa.Alloc) string
+
 // Path renders the access path of an address or value rooted at a parameter,
 // free variable, global or allocation: e.g. "m.Type", "*cmd.Stdout",
 // "file.Name.Name", "fd.Matches[i]". Values that are not simple paths render
@@ -258,6 +276,11 @@ func Path(v ssa.Value) string {
 	case *ssa.Global:
 		return x.Pkg.Pkg.Name() + "." + x.Name()
 	case *ssa.Alloc:
+		if CanonicalLocal != nil {
+			if n := CanonicalLocal(x); n != "" {
+				return n
+			}
+		}
 		if x.Comment != "" {
 			return x.Comment
 		}
